@@ -319,20 +319,59 @@ class NoneValue(Value):
 
 
 class MultiByteValue(Value):
+    """
+    A comma separated list of byte values (FCB). Items that are symbols or expressions
+    are filled in when symbols are resolved, or once addresses are known.
+    """
+    item_hex_size = 2
+
     def __init__(self, value):
         super().__init__(value)
         self.hex_array = []
+        self.pending = {}
         self.type = ValueType.MULTI_BYTE
         if "," not in value:
             raise ValueTypeError("multi-byte declarations must have a comma in them")
-        values = value.split(",")
-        self.hex_array = []
-        for x in values:
-            if x != "":
-                byte_value = NumericValue(x)
-                if byte_value.int > (0x80 if byte_value.is_negative() else 0xFF):
-                    raise ValueTypeError("[{}] does not fit in a byte".format(x))
-                self.hex_array.append(byte_value.hex(size=2))
+        for item_text in value.split(","):
+            if item_text != "":
+                self.add_item(item_text)
+
+    def add_item(self, item_text):
+        try:
+            self.hex_array.append(self.item_hex(NumericValue(item_text), item_text))
+            return
+        except ValueTypeError as error:
+            if "does not fit" in str(error):
+                raise
+        try:
+            item = ExpressionValue(item_text)
+        except ValueTypeError:
+            item = SymbolValue(item_text)
+        self.pending[len(self.hex_array)] = (item, item_text)
+        self.hex_array.append("0" * self.item_hex_size)
+
+    def item_hex(self, item, item_text):
+        if self.item_hex_size == 2 and item.int > (0x80 if item.is_negative() else 0xFF):
+            raise ValueTypeError("[{}] does not fit in a byte".format(item_text))
+        return item.hex(size=self.item_hex_size)
+
+    def resolve(self, symbol_table):
+        for index, (item, item_text) in list(self.pending.items()):
+            item = item.resolve(symbol_table)
+            if item.is_numeric():
+                self.hex_array[index] = self.item_hex(item, item_text)
+                del self.pending[index]
+            else:
+                self.pending[index] = (item, item_text)
+        return self
+
+    def fix_addresses(self, statements):
+        for index, (item, item_text) in self.pending.items():
+            if item.is_address():
+                item = NumericValue(statements[item.int].code_pkg.address.int)
+            else:
+                item = item.calculate_address_offset(statements)
+            self.hex_array[index] = self.item_hex(item, item_text)
 
     def hex(self, size=0):
         return "".join(self.hex_array)
@@ -347,27 +386,17 @@ class MultiByteValue(Value):
         return False
 
 
-class MultiWordValue(Value):
+class MultiWordValue(MultiByteValue):
+    """
+    A comma separated list of word values (FDB).
+    """
+    item_hex_size = 4
+
     def __init__(self, value):
-        super().__init__(value)
-        self.hex_array = []
-        self.type = ValueType.MULTI_WORD
         if "," not in value:
             raise ValueTypeError("multi-word declarations must have a comma in them")
-        values = value.split(",")
-        self.hex_array = [NumericValue(x).hex(size=4) for x in values if x != ""]
-
-    def hex(self, size=0):
-        return "".join(self.hex_array)
-
-    def hex_len(self):
-        return len(self.hex())
-
-    def is_8_bit(self):
-        return False
-
-    def is_16_bit(self):
-        return False
+        super().__init__(value)
+        self.type = ValueType.MULTI_WORD
 
 
 class StringValue(Value):
